@@ -12,7 +12,8 @@
  *   dec <hmmdir> <key=val>...                  dec ok win=.. nmfc=.. nfeat=.. grow=.. livebuf=.. fsize=.. fshift=.. cmnwin=.. cmnhwm=..
  *   audio <path.raw>                           audio <nsamples>
  *   utt <off> <len> <cmn|->                    utt rv=<r> cmnframes=<n> | <st>
- *   p <i|f> <n> <nosearch>                     p rv=<r> fe=<lim>:<nvec>:<left>,.. sc=<pass><frame>:<idx>:<hash>,.. | <st>
+ *   p <i|f> <n> <nosearch> [full]              p rv=<r> fe=<lim>:<nvec>:<left>,.. sc=<pass><frame>:<idx>:<hash>,.. | <st>
+ *                                              ([full]: full_utt = 1; the frame-count query fe_process(.., NULL, ..) is logged as e<count>)
  *   q <hyp|seg|align>                          q <digest> fe=.. sc=.. | <st>
  *   end                                        end rv=<r> ovf=<overflow samples before fe_end> fsz=<frame_size> fe=.. sc=.. | <st>
  *   res                                        res ... (full record, see print_result)
@@ -59,11 +60,19 @@ static void fe_note(int lim, int nvec, size_t left)
         felen += sprintf(felog + felen, "%s%d:%d:%zu", felen ? "," : "", lim, nvec, left);
 }
 
+static void fe_note_est(int r)
+{
+    if (felen + 32 < sizeof(felog))
+        felen += sprintf(felog + felen, "%se%d", felen ? "," : "", r);
+}
+
 int __wrap_fe_process_int16(fe_t *fe, int16 **s, size_t *n, mfcc_t **buf, int nframes)
 {
     int r = __real_fe_process_int16(fe, s, n, buf, nframes);
     if (buf)
         fe_note(nframes, r, *n);
+    else
+        fe_note_est(r);
     return r;
 }
 
@@ -72,6 +81,8 @@ int __wrap_fe_process_float32(fe_t *fe, float32 **s, size_t *n, mfcc_t **buf, in
     int r = __real_fe_process_float32(fe, s, n, buf, nframes);
     if (buf)
         fe_note(nframes, r, *n);
+    else
+        fe_note_est(r);
     return r;
 }
 
@@ -128,10 +139,10 @@ static size_t naudio, clip_off, clip_len, clip_pos;
 static void print_st(void)
 {
     acmod_t *a = dec->acmod;
-    printf(" | st=%d nmfc=%d mfco=%d nfeat=%d fo=%d of=%d alloc=%d grow=%d bp=%d cp=%d nfrm=%d\n",
+    printf(" | st=%d nmfc=%d mfco=%d nfeat=%d fo=%d of=%d alloc=%d grow=%d bp=%d cp=%d malloc=%d nfrm=%d\n",
            (int)a->state, a->n_mfc_frame, a->mfc_outidx, a->n_feat_frame, a->feat_outidx,
            (int)a->output_frame, a->n_feat_alloc, (int)a->grow_feat, a->fcb->bufpos, a->fcb->curpos,
-           (int)dec->n_frame);
+           a->n_mfc_alloc, (int)dec->n_frame);
     fflush(stdout);
 }
 
@@ -309,9 +320,9 @@ int main(void)
             rv = decoder_start_utt(dec);
             printf("utt rv=%d cmnframes=%d", rv, (int)dec->acmod->fcb->cmn_struct->nframe);
             print_st();
-        } else if (!strcmp(w[0], "p") && n == 4) {
+        } else if (!strcmp(w[0], "p") && (n == 4 || n == 5)) {
             size_t k = strtoul(w[2], NULL, 10);
-            int nosearch = atoi(w[3]), rv;
+            int nosearch = atoi(w[3]), rv, full = (n == 5 && !strcmp(w[4], "full"));
             if (clip_pos + k > clip_len) k = clip_len - clip_pos;
             log_reset();
             /* a private copy of exactly the samples passed, so that ASan sees any read beyond them
@@ -319,12 +330,12 @@ int main(void)
             if (w[1][0] == 'f') {
                 float32 *b = (float32 *)malloc(k * 4 + 4);
                 memcpy(b, audio32 + clip_off + clip_pos, k * 4);
-                rv = decoder_process_float32(dec, b, k, nosearch, 0);
+                rv = decoder_process_float32(dec, b, k, nosearch, full);
                 free(b);
             } else {
                 int16 *b = (int16 *)malloc(k * 2 + 2);
                 memcpy(b, audio16 + clip_off + clip_pos, k * 2);
-                rv = decoder_process_int16(dec, b, k, nosearch, 0);
+                rv = decoder_process_int16(dec, b, k, nosearch, full);
                 free(b);
             }
             clip_pos += k;
